@@ -12,7 +12,7 @@ for ID in $IDS; do
   D=seeded/$ID
   [ -f "$D/patch.diff" ] || continue
   [ "$ID" = "harmless" ] && continue
-  PROPS=$(cat "$D/checks" 2>/dev/null || echo "$ID" | sed 's/b$//')
+  PROPS=$(cat "$D/checks" 2>/dev/null || echo "$ID" | cut -c1-3)
   git -C /repo apply "/verif/$D/patch.diff" || { echo "$ID: patch does not apply"; continue; }
   OUT="{\"seed\": \"$ID\", \"results\": ["
   SEP=""
